@@ -291,7 +291,8 @@ partial def loop (hin : IO.FS.Stream) (hout : IO.FS.Stream) : IO Unit := do
   match Sexp.parse line with
   | some (.list [id, cmd]) =>
       hout.putStrLn (Sexp.render (.list [id, dispatch cmd]))
-  | _ => hout.putStrLn "(? bad-line)"
+      hout.flush
+  | _ => do hout.putStrLn "(? bad-line)"; hout.flush
   loop hin hout
 
 def main : IO Unit := do
